@@ -636,7 +636,10 @@ def run_bare_variables(ctx, i, rng):
       w, total = nnx.Param(jnp.asarray(w0)), Count(jnp.zeros((N, 3)))
       ref_total = np.zeros((N, 3))
       for c in range(calls):
-        y = nnx.vmap(body, in_axes=(None if shared else 0, 0, 0), out_axes=0)(w, total, X)
+        ax = (None if shared else 0, 0, 0)
+        if (i // 6) % 2:
+          ax = list(ax)          # "int | None | Sequence": a list, as jax.vmap accepts
+        y = nnx.vmap(body, in_axes=ax, out_axes=0)(w, total, X)
         ctx.op('nnx.vmap(bare Variables)')
         ref_total = ref_total + (w0[None] if shared else w0) * np.asarray(X)
         ctx.check(same(y, ref_total.sum(-1)), 'bare_variables:vmap_output', lambda: dict(case=desc, call=c))
@@ -665,7 +668,7 @@ def run_bare_variables(ctx, i, rng):
       if kind == 'scan_axis':
         total = Count(jnp.zeros((N, 3)))
 
-        @nnx.scan(in_axes=(nnx.Carry, 0, 0, 0), out_axes=(nnx.Carry, 0))
+        @nnx.scan(in_axes=(nnx.Carry, 0, 0, 0), out_axes=(nnx.Carry, 0))   # (nnx.scan documents a tuple)
         def f(c, w, total, x):
           total.value = total.value + w.value * x + c
           return c + 1.0, total.value.sum()
